@@ -76,6 +76,9 @@ pub struct Out {
     /// violations the implementation-side oracle found by itself (independent of the model)
     pub impl_violations: Vec<(u64, String)>,
     pub cur_case: u64,
+    /// where `cur_case` is published (a one-line file rewritten at the start of every case): if the implementation takes the whole
+    /// process down (stack overflow, abort), ./check reads it, records the case and runs the stream again without it
+    cur_case_path: String,
     cur_buf: String,
     cur_nontrivial: bool,
 }
@@ -105,6 +108,7 @@ impl Out {
             notes: vec![],
             impl_violations: vec![],
             cur_case: 0,
+            cur_case_path: format!("{dir}/cur_case"),
             cur_buf: String::new(),
             cur_nontrivial: false,
         }
@@ -112,6 +116,7 @@ impl Out {
     pub fn begin_case(&mut self, idx: u64, label: &str) {
         self.end_case();
         self.cur_case = idx;
+        let _ = std::fs::write(&self.cur_case_path, format!("{idx}\n"));
         self.cases += 1;
         self.cur_buf.clear();
         self.cur_nontrivial = false;
@@ -221,6 +226,8 @@ pub struct Cfg {
     /// multiplier of the quick-tier case counts (`--scale K`): ./check raises it when /repo's sources differ from the
     /// fingerprints recorded in checklib/fingerprints.json, i.e. when the code under check has changed
     pub scale: u64,
+    /// case indices to leave out (`--skip K`, repeatable): cases in which the implementation killed the process in an earlier attempt
+    pub skip: Vec<u64>,
 }
 impl Cfg {
     pub fn thorough(&self) -> bool {
@@ -231,6 +238,6 @@ impl Cfg {
         self.cases.unwrap_or(if self.thorough() { thorough } else { (quick * self.scale.max(1)).min(thorough.max(quick)) })
     }
     pub fn wants(&self, idx: u64) -> bool {
-        self.only_case.map_or(true, |c| c == idx)
+        self.only_case.map_or(true, |c| c == idx) && !self.skip.contains(&idx)
     }
 }
